@@ -256,6 +256,20 @@ func (p *pathState) choice(name string, n int) int {
 	return k
 }
 
+// pastBias constrains every harness-supplied instant to lie before 2020-01-01 (the wall clock of a native replay).
+func (p *pathState) pastBias() *Term {
+	var cs []*Term
+	for _, in := range p.inputs {
+		if in.Kind == "time" {
+			cs = append(cs, bvCmp("bvsle", mkVar(in.Name, in.Sort), mkBV(uint64(1_577_836_800_000_000_000), 64)))
+		}
+	}
+	if len(cs) == 0 {
+		return nil
+	}
+	return tAnd(cs...)
+}
+
 func (p *pathState) inputVars() map[string]Sort {
 	m := map[string]Sort{}
 	for _, in := range p.inputs {
@@ -298,6 +312,12 @@ func (p *pathState) assert(c value, label string, fr *frame) {
 			eng.count(&eng.stats.Inconclusive)
 			eng.noteInconclusive(label)
 		case RSat:
+			// native replay runs on the real clock: prefer a model whose symbolic instants lie in the past
+			if pb := p.pastBias(); pb != nil {
+				if r3, model3 := p.solver().CheckModel(append(append([]*Term{}, p.pc...), pb), tNot(c), p.inputVars()); r3 == RSat {
+					model = model3
+				}
+			}
 			p.recordViolation(label, "assert", "assertion can be false", model)
 			// look for a violation outside every known-finding predicate
 			for _, extra := range eng.knownExclusions(p, label) {
